@@ -14,6 +14,7 @@ LANELETS = {
     6: ([(0, 2), (8, 2)], [(0, 4), (8, 4)]),                                 # F shares a boundary with A (and touches B)
     7: ([(100, 100), (104, 100)], [(100, 102), (104, 102)]),                 # G far away
     8: ([(10, 2), (12, 4), (14, 6)], [(9, 3), (11, 5), (13, 7)]),            # H diagonal
+    9: ([(0, 0), (4, 0), (8, 0)], [(0, 2), (4, 2), (8, 2)]),                 # I exactly the geometry of A (a second lanelet overlaid on the same area)
 }
 
 
@@ -95,7 +96,10 @@ def lanelets_hit_by(sp, ids, table=None):
 
 QUERY_SHAPES = [["rect", 2.0, 1.0, 0.0, 0.0, 0], ["rect", 1.0, 3.0, 0.0, 0.0, 0], ["rect", 3.0, 1.0, 0.0, 0.0, 0.7], ["rect", 2.0, 2.0, 0.0, 0.0, math.pi / 4],
                 ["circle", 0.75, 0.0, 0.0], ["circle", 1.25, 0.0, 0.0], ["circle", 2.25, 0.0, 0.0],
-                ["poly", [[-1.0, -0.5], [1.0, -0.5], [0.0, 1.0]]], ["poly", [[-1.0, -1.0], [1.0, -1.0], [1.0, 1.0], [0.0, 0.0], [-1.0, 1.0]]]]
+                ["poly", [[-1.0, -0.5], [1.0, -0.5], [0.0, 1.0]]], ["poly", [[-1.0, -1.0], [1.0, -1.0], [1.0, 1.0], [0.0, 0.0], [-1.0, 1.0]]],
+                # shape groups whose members lie apart, so that for many anchors only one member reaches a lanelet (union semantics)
+                ["group", [["rect", 2.0, 1.0, 0.0, 0.0, 0], ["rect", 1.0, 1.0, 3.0, 4.25, 0]]],
+                ["group", [["poly", [[-1.0, -0.5], [1.0, -0.5], [0.0, 1.0]]], ["rect", 1.0, 1.0, -4.0, 0.25, 0], ["rect", 0.5, 0.5, 0.0, -3.25, 0]]]]
 ANCHORS = [(1.0, 1.0), (4.0, 2.0), (4.0, 3.0), (8.0, 0.0), (9.0, 1.5), (0.0, 4.0), (6.0, 5.0), (8.5, 7.5), (-1.5, 1.0), (4.0, -4.0), (4.0, -1.5), (12.0, 0.25),
            (12.0, 1.5), (11.0, 4.0), (12.5, 5.5), (2.0, 2.0), (10.0, 2.5), (102.0, 101.0), (50.0, 50.0), (6.0, 3.5)]
 
@@ -108,4 +112,6 @@ def shape_at(sp, ax, ay):
         return ["circle", sp[1], sp[2] + ax, sp[3] + ay]
     if k == "poly":
         return ["poly", [[x + ax, y + ay] for x, y in sp[1]]]
+    if k == "group":
+        return ["group", [shape_at(m, ax, ay) for m in sp[1]]]
     raise KeyError(k)
